@@ -9,7 +9,8 @@ Conventions
   `getStatePrev`), `segmentCompleted = FirstIndex() - 1` (the model stores `next = segmentCompleted + 1`),
   `segmentIdx - shadowableSegment` (the comparisons are rewritten with the subtrahend on the other side).
 * An unrecovered Go panic is `Except.error` with the reason.
-* `fix : Bool` selects the proposed patch of `dependenciesCompleted` (F15); `false` = the code as it is.
+* `fix : Patch` selects the proposed patches (`Patch.none` = the code as it is): `deps` patches
+  `dependenciesCompleted` (F15, F20), `shadow` patches `markShadowedUnits` (F19).
 -/
 namespace SV.Stg
 open SV
@@ -24,7 +25,7 @@ deriving DecidableEq, Repr, Inhabited
 
 /-- reasons for an (unrecovered) Go panic -/
 inductive Err where
-  | invalidTransition      -- transitions.go invalidTransition
+  | invalidTransition (frm to : UnitState)   -- transitions.go invalidTransition
   | indexOutOfRange        -- slice index out of range in setState / stages[...]
   | nilRange               -- r.Len() on a nil *block.Range in NextJob
   | mergeNotAfterComplete  -- MarkSegmentMerging: "can only merge segments if previous is complete"
@@ -34,6 +35,15 @@ inductive Err where
   | workerAlreadyFree      -- WorkerPool.Return
   | endsOnInterval         -- Segmenter.EndsOnInterval out of range
 deriving DecidableEq, Repr, Inhabited
+
+/-- which of the proposed patches are applied -/
+structure Patch where
+  deps   : Bool     -- dependenciesCompleted
+  shadow : Bool     -- markShadowedUnits
+deriving DecidableEq, Repr, Inhabited
+
+def Patch.none : Patch := ⟨false, false⟩
+def Patch.all : Patch := ⟨true, true⟩
 
 structure WorkUnit where
   seg   : Nat
@@ -109,7 +119,7 @@ def allocSegments (s : Stages) (seg : Nat) : Stages :=
 def transition (s : Stages) (u : WorkUnit) (to : UnitState) (allowed : List UnitState) : Except Err Stages :=
   let s := s.allocSegments u.seg
   if allowed.contains (s.getState u.seg u.stage) then s.setState u.seg u.stage to
-  else .error .invalidTransition
+  else .error (.invalidTransition (s.getState u.seg u.stage) to)
 
 def previousUnitComplete (s : Stages) (u : WorkUnit) : Bool :=
   let st := s.getStatePrev u.seg u.stage
@@ -134,28 +144,32 @@ def shadowableSeg (s : Stages) (seg : Nat) : Bool :=
   if s.nStages < 2 then false else decide (seg ≤ s.shadowable + (s.nStages - 1))
 
 /-- body of the loop of `markShadowedUnits`, stages `fuel-1, …, 0` of which only those with
-`stage ≥ seg - shadowable` are looked at (the loop stops at the first one below). -/
-def markShadowedLoop (seg : Nat) : Nat → Stages → Bool → Except Err (Stages × Bool)
+`stage ≥ seg - shadowable` are looked at (the loop stops at the first one below).
+`fix.shadow` is the PROPOSED PATCH: only a Pending (or already Shadowed) unit is shadowed — never one whose
+partial is present, that is being merged or that is scheduled — and not under a unit that is already Merging
+(its job is over and will never turn the shadowed unit into PartialPresent). -/
+def markShadowedLoop (fix : Patch) (seg : Nat) : Nat → Stages → Bool → Except Err (Stages × Bool)
   | 0, s, sh => .ok (s, sh)
   | k + 1, s, sh =>
     -- stageIdx = k
     if k + s.shadowable < seg then .ok (s, sh)    -- stageIdx >= relSegmentOrdinal fails: loop ends
     else
       let st := s.getState seg k
-      if st ≠ .completed ∧ st ≠ .noOp then
-        let nx := s.getState seg (k + 1)
-        if nx = .pending ∨ nx = .scheduled ∨ nx = .merging ∨ nx = .shadowed then
-          match s.setState seg k .shadowed with
-          | .error e => .error e
-          | .ok s' => markShadowedLoop seg k s' true
-        else markShadowedLoop seg k s sh
-      else markShadowedLoop seg k s sh
+      let nx := s.getState seg (k + 1)
+      let condA : Bool := if fix.shadow then st == .pending || st == .shadowed else st != .completed && st != .noOp
+      let condB : Bool := if fix.shadow then nx == .pending || nx == .scheduled || nx == .shadowed
+                          else nx == .pending || nx == .scheduled || nx == .merging || nx == .shadowed
+      if condA && condB then
+        match s.setState seg k .shadowed with
+        | .error e => .error e
+        | .ok s' => markShadowedLoop fix seg k s' true
+      else markShadowedLoop fix seg k s sh
 
-def markShadowedUnits (s : Stages) (seg : Nat) : Except Err (Stages × Bool) :=
+def markShadowedUnits (fix : Patch) (s : Stages) (seg : Nat) : Except Err (Stages × Bool) :=
   if !s.shadowableSeg seg then .ok (s, false)
   else
     let s := s.allocSegments seg
-    markShadowedLoop seg (s.nStages - 1) s false
+    markShadowedLoop fix seg (s.nStages - 1) s false
 
 /-! ### dependenciesCompleted -/
 
@@ -168,19 +182,22 @@ def depsLoop (s : Stages) (seg : Nat) (prevParentOk : Bool) : Nat → Bool
     | .shadowed | .partialPresent => if prevParentOk then depsLoop s seg prevParentOk k else false
     | _ => false
 
-/-- PROPOSED PATCH (`fix = true`): a lower stage must also be complete at the end of the previous segment
-(that is where the job loads its full snapshot from), and the early return is kept only for the first
-segment of the whole request. -/
+/-- PROPOSED PATCH (`fix.deps`): for every lower stage that has data at or before this segment, the unit of
+the PREVIOUS segment must be complete (that is where the job loads the stage's full snapshots from), and the
+unit of this segment must be complete, or present, or shadowed (produced by this very job).  The early return
+for the first segment of the unit's own stage is gone: a lower stage may have started earlier. -/
 def depsLoopFix (s : Stages) (seg : Nat) : Nat → Bool
   | 0 => true
   | k + 1 =>
-    if !s.previousUnitComplete ⟨seg, k⟩ then false
+    let fi := (s.stageAt k).seg.firstIndex
+    if seg < fi then depsLoopFix s seg k
+    else if decide (seg > fi) && !s.previousUnitComplete ⟨seg, k⟩ then false
     else match s.getState seg k with
       | .completed | .noOp | .shadowed | .partialPresent => depsLoopFix s seg k
       | _ => false
 
-def dependenciesCompleted (fix : Bool) (s : Stages) (u : WorkUnit) : Bool :=
-  if fix then
+def dependenciesCompleted (fix : Patch) (s : Stages) (u : WorkUnit) : Bool :=
+  if fix.deps then
     if u.stage = 0 then true else depsLoopFix s u.seg u.stage
   else
     if u.seg ≤ (s.stageAt u.stage).seg.firstIndex then true
@@ -201,7 +218,7 @@ inductive StageStep where
   | next (s : Stages)       -- inner loop finished or `break`
 
 /-- inner loop of `NextJob` over `stageIdx = k-1, …, 0` for one segment -/
-def nextJobStages (fix : Bool) (seg : Nat) (someShadowed : Bool) : Nat → Stages → Except Err StageStep
+def nextJobStages (fix : Patch) (seg : Nat) (someShadowed : Bool) : Nat → Stages → Except Err StageStep
   | 0, s => .ok (.next s)
   | k + 1, s =>
     let stage := s.stageAt k
@@ -233,10 +250,10 @@ def nextJobStages (fix : Bool) (seg : Nat) (someShadowed : Bool) : Nat → Stage
           | .ok s' => .ok (.found s' ⟨seg, k⟩ r)
 
 /-- outer loop over segments `seg, seg+1, …` (`fuel` of them) -/
-def nextJobSegs (fix : Bool) : Nat → Nat → Stages → Except Err (Stages × Option (WorkUnit × Range))
+def nextJobSegs (fix : Patch) : Nat → Nat → Stages → Except Err (Stages × Option (WorkUnit × Range))
   | 0, _, s => .ok (s, none)
   | fuel + 1, seg, s =>
-    match s.markShadowedUnits seg with
+    match s.markShadowedUnits fix seg with
     | .error e => .error e
     | .ok (s1, someShadowed) =>
       match nextJobStages fix seg someShadowed s1.nStages s1 with
@@ -244,7 +261,7 @@ def nextJobSegs (fix : Bool) : Nat → Nat → Stages → Except Err (Stages × 
       | .ok (.found s2 u r) => .ok (s2, some (u, r))
       | .ok (.next s2) => nextJobSegs fix fuel (seg + 1) s2
 
-def nextJob (fix : Bool) (s : Stages) : Except Err (Stages × Option (WorkUnit × Range)) :=
+def nextJob (fix : Patch) (s : Stages) : Except Err (Stages × Option (WorkUnit × Range)) :=
   nextJobSegs fix (s.globalSeg.lastIndex + 1 - s.globalSeg.firstIndex) s.globalSeg.firstIndex s
 
 /-! ### job success, merging -/
